@@ -353,6 +353,7 @@ fn main() {
         let red: Vec<Upd> = uni.iter().copied().filter(|u| u.key == 2 || matches!(u.kind, Kind::SetA | Kind::Tomb | Kind::HashF)).collect();
         sets.extend(subsets(&red, 4));
     }
+    sets.retain(|s| jointly_producible(s));
     let usable: Vec<Vec<Upd>> = par::par_map(&sets, |_, s| order_independent_fold(s).map(|_| s.clone())).into_iter().flatten().collect();
     let order_dependent = sets.len() - usable.len();
     let cfgs: Vec<Cfg> = {
